@@ -269,3 +269,12 @@ pub fn run(tier: Tier, seed: u64) -> i32 {
         Ok(())
     })
 }
+
+/// one generated case from a raw choice tape (the coverage-guided tier feeds tapes decoded from bytes)
+pub fn fuzz_one(tape: &[u32], l: &mut Local) -> CaseRes {
+    let (g, input, sub) = decode(tape);
+    if !wf(&g) {
+        return Ok(());
+    }
+    check_inner(sub, &g, &input, l)
+}
